@@ -156,8 +156,8 @@ pub fn ac_norm(s: &Sym, comm: &[bool; 64]) -> Sym {
 // operator tables
 
 pub const SYM_BIN_NAMES: &[&str] = &["+", "-", "*", "/", "^", "%", "&", "|", "<", "<=", "<<", "==", "!=", "&&", "||"];
-pub const ALPHA_BIN_NAMES: &[&str] = &["mx", "mn", "atan2", "dot", "andalso", "⊕r", "Δd"];
-pub const UN_NAMES: &[&str] = &["sin", "cos", "ln", "log", "log2", "sqrt", "!", "f_1", "λ"];
+pub const ALPHA_BIN_NAMES: &[&str] = &["mx", "mn", "atan2", "dot", "andalso", "⊕r", "Δd", "lg"];
+pub const UN_NAMES: &[&str] = &["sin", "cos", "ln", "log", "log2", "sqrt", "!", "f_1", "λ", "lg2", "lg10"];
 pub const CONST_NAMES: &[&str] = &["PI", "E", "k0", "τ"];
 
 #[derive(Clone, Debug)]
